@@ -223,6 +223,8 @@ struct Rules<'a> {
     r4: bool,
     r9: bool,
     r10: bool,
+    r11: bool,
+    r12: bool,
     hoists: &'a [Value],
     inlines: &'a [Value],
     for_iters: &'a [Value],
@@ -281,6 +283,53 @@ impl<'a> VisitMut for Rules<'a> {
         visit_mut::visit_block_mut(self, b);
     }
     fn visit_expr_mut(&mut self, e: &mut Expr) {
+        // R12: a statement-position `match S { P1 if G1 => B1, .., Pk if Gk => Bk, Q1 => C1, .. }` (all guarded arms first, every
+        // body a block of type ()) ↦ `{ let mut done = false; if !done { match S { P1 => { if G1 { done = true; B1 } } _ => {} } } ..
+        // if !done { match S { Q1 => C1, .. } } }`.  The first arm whose pattern matches and whose guard holds runs, as in
+        // the original; S is evaluated once per tried arm instead of once, so the rule REQUIRES a side-effect-free scrutinee
+        // (stated per unit; logged). Verus loses the final value of a `&mut` binding that a guarded arm mutates.
+        if self.r12 {
+            if let Expr::Match(m) = e {
+                let n_guard = m.arms.iter().filter(|a| a.guard.is_some()).count();
+                let two_arm = m.arms.len() == 2 && m.arms[0].guard.is_some() && m.arms[1].guard.is_none() && matches!(m.arms[1].pat, Pat::Wild(_));
+                if two_arm {
+                    // R12 (two-arm form): `match S { P if G => B, _ => D }` ↦ `match S { P => { if G { B } else { D } } _ => D }`
+                    // (the catch-all body D is duplicated verbatim; S is evaluated once)
+                    let scrut = m.expr.clone();
+                    let line = Self::line(m.match_token.span);
+                    let pat = m.arms[0].pat.clone();
+                    let g = m.arms[0].guard.as_ref().unwrap().1.clone();
+                    let b = m.arms[0].body.clone();
+                    let d = m.arms[1].body.clone();
+                    self.log.push(json!({"rule":"R12","file":self.file,"line":line,
+                        "what":format!("in {}: `match S {{ P if G => B, _ => D }}` written as `match S {{ P => {{ if G {{ B }} else {{ D }} }} _ => D }}` (catch-all body duplicated)", self.cur_fn)}));
+                    *e = parse_quote!(match #scrut { #pat => { if #g { #b } else { #d } } _ => #d });
+                } else if n_guard > 0 {
+                    let first_unguarded = m.arms.iter().position(|a| a.guard.is_none()).unwrap_or(m.arms.len());
+                    let ok_shape = m.arms.iter().skip(first_unguarded).all(|a| a.guard.is_none())
+                        && m.arms.iter().all(|a| matches!(&*a.body, Expr::Block(_)));
+                    if !ok_shape {
+                        die(&format!("R12: match with guards in {} has a shape the rule does not cover (guarded arms must come first, bodies must be blocks)", self.cur_fn));
+                    }
+                    let scrut = m.expr.clone();
+                    let line = Self::line(m.match_token.span);
+                    let mut steps: Vec<syn::Stmt> = Vec::new();
+                    for a in m.arms.iter().take(first_unguarded) {
+                        let pat = &a.pat;
+                        let g = &a.guard.as_ref().unwrap().1;
+                        let body = &a.body;
+                        steps.push(parse_quote!(if !__vx_done { match #scrut { #pat => { if #g { __vx_done = true; #body } } _ => {} } }));
+                    }
+                    let rest: Vec<&syn::Arm> = m.arms.iter().skip(first_unguarded).collect();
+                    if !rest.is_empty() {
+                        steps.push(parse_quote!(if !__vx_done { match #scrut { #(#rest)* } }));
+                    }
+                    self.log.push(json!({"rule":"R12","file":self.file,"line":line,
+                        "what":format!("in {}: match with {} guarded arm(s) written as a sequence of guard-free matches under a `done` flag; the scrutinee `{}` is evaluated once per tried arm (requires a side-effect-free scrutinee)", self.cur_fn, n_guard, norm(&scrut.to_token_stream()))}));
+                    *e = parse_quote!({ let mut __vx_done = false; #(#steps)* });
+                }
+            }
+        }
         // R5 hoist: match before descending (outermost match wins)
         for (k, h) in self.hoists.iter().enumerate() {
             let in_fn = h["fn"].as_str().unwrap_or("");
@@ -322,6 +371,20 @@ impl<'a> VisitMut for Rules<'a> {
             }
         }
         visit_mut::visit_expr_mut(self, e);
+        // R11: non-short-circuit `a | b` on booleans ↦ `{ let l = a; let r = b; l || r }` (both operands are evaluated, in
+        // order, exactly as `|` does; if an operand is not a bool the result does not type-check and the run is undecided)
+        if self.r11 {
+            if let Expr::Binary(b) = e {
+                if let syn::BinOp::BitOr(_) = b.op {
+                    let l = &b.left;
+                    let r = &b.right;
+                    let line = Self::line(syn::spanned::Spanned::span(&b.op));
+                    self.log.push(json!({"rule":"R11","file":self.file,"line":line,
+                        "what":format!("in {}: strict boolean `|` written as `{{ let l = ..; let r = ..; l || r }}`", self.cur_fn)}));
+                    *e = parse_quote!({ let __vx_l = #l; let __vx_r = #r; __vx_l || __vx_r });
+                }
+            }
+        }
         if self.r3 {
             if let Expr::Binary(b) = e {
                 let tr = match b.op {
@@ -748,7 +811,7 @@ fn main() {
                 // 2. rules
                 AttrStrip { derive_keep: &derive_keep, log: &mut log, file, apply_r2: rules.contains("R2") }.visit_item_mut(&mut item);
                 let mut r = Rules {
-                    r1: rules.contains("R1"), r3: rules.contains("R3"), r4: rules.contains("R4"), r9: rules.contains("R9"), r10: rules.contains("R10"),
+                    r1: rules.contains("R1"), r3: rules.contains("R3"), r4: rules.contains("R4"), r9: rules.contains("R9"), r10: rules.contains("R10"), r11: rules.contains("R11"), r12: rules.contains("R12"),
                     hoists, inlines, for_iters, log: &mut log, file, cur_fn: String::new(), hoist_hits: vec![0; hoists.len()],
                 };
                 r.visit_item_mut(&mut item);
